@@ -300,10 +300,13 @@ func (i *Interval) findInterval(h graph.Node, g graph.Directed, assigned map[int
 				continue
 			}
 
+			// The predecessors are counted here, since the
+			// iterator may not know how many there are.
 			preds := g.To(succs.Node().ID())
-			predsLength := preds.Len()
+			predsLength := 0
 			x := 0
 			for preds.Next() {
+				predsLength++
 				if i.nodes[preds.Node().ID()] != nil {
 					x++
 				}
